@@ -221,6 +221,23 @@ func runC13Hist(t *testing.T, c CacheHistCase) (*h.Violation, h.Info) {
 					return h.V("written-after-lookup", "step %d: lookup of new secret %q did not write the cache", i, o.Name), info
 				}
 			}
+		case "watch":
+			// the program asks for an updater: for a name the store does not hold yet that is a lookup too
+			if _, err := setec.NewUpdater(context.Background(), st, o.Name, func(b []byte) (string, error) { return string(b), nil }); err != nil {
+				return h.V("harness", "NewUpdater: %v", err), info
+			}
+			if known[o.Name] == nil {
+				v, _, _ := svc.Active(o.Name)
+				known[o.Name] = &c13model{ver: v, last: clock.Unix()}
+				info.Class("lookup-through-newupdater")
+				if cache.NumWriteCalls() == w0 {
+					return h.V("written-after-lookup", "step %d: NewUpdater looked the new secret %q up; the cache was not written", i, o.Name), info
+				}
+			}
+			known[o.Name].last = clock.Unix() // the updater's first value is a read
+			if handles[o.Name] == nil {
+				handles[o.Name] = st.Secret(o.Name) // (a watcher keeps its secret referenced; so does the model, through a handle)
+			}
 		case "set":
 			nver[o.Name]++
 			svc.Set(o.Name, nver[o.Name], c13Value(o.Name, nver[o.Name]))
@@ -269,14 +286,36 @@ func runC13Hist(t *testing.T, c CacheHistCase) (*h.Violation, h.Info) {
 		case "restart":
 			st.Close() // the poller stops: the cache must be flushed with current stamps
 			if cache.NumWriteCalls() == w0 {
-				return h.V("written-when-poller-stops", "step %d: Close did not write the cache", i), info
+				// no write at all is as good as a rewrite only if the cache already holds, byte for byte
+				// in meaning, what a rewrite would have put there: every known secret, its latest version
+				// and bytes, and the current last-access stamps
+				diff := ""
+				doc, err := model.DecodeCacheStrict(cache.Data())
+				if err != nil {
+					diff = err.Error()
+				} else {
+					for n, m := range known {
+						if e, ok := doc[n]; !ok || e.Version != m.ver || !bytes.Equal(e.Value, c13Value(n, m.ver)) || e.LastAccess != m.last {
+							diff = fmt.Sprintf("%q: cache has present=%v v%d stamp %d, the store knew v%d stamp %d", n, ok, e.Version, e.LastAccess, m.ver, m.last)
+						}
+					}
+					for n := range doc {
+						if known[n] == nil {
+							diff = fmt.Sprintf("cache lists %q, which the store no longer knew", n)
+						}
+					}
+				}
+				if diff != "" {
+					return h.V("written-when-poller-stops", "step %d: Close did not write the cache, and what the cache holds is not what a rewrite would have put there (%s)", i, diff), info
+				}
+				info.Class("close-found-the-cache-already-up-to-date")
 			}
 			if !faulty {
 				if v := verify(i, "close"); v != nil {
 					return v, info
 				}
 			}
-			if lastKind == "lookup" || lastKind == "read" {
+			if lastKind == "lookup" || lastKind == "read" || lastKind == "watch" {
 				sawRestartAfterLookup = true
 			}
 			// what the next process knows is what the last successful write holds
@@ -327,7 +366,7 @@ var c13hist = &h.Campaign[CacheHistCase]{
 	Gen: func(rt *rapid.T) CacheHistCase {
 		c := CacheHistCase{Declared: rapid.SampledFrom([][]string{{"d1"}, {"d1", "d2"}, {"d1", "empty"}}).Draw(rt, "declared")}
 		c.Ops = rapid.SliceOfN(rapid.Custom(func(rt *rapid.T) COp {
-			o := COp{Kind: rapid.SampledFrom([]string{"lookup", "lookup", "set", "set", "poll", "poll", "read", "advance", "restart"}).Draw(rt, "kind"), Name: rapid.SampledFrom(c13Names).Draw(rt, "name")}
+			o := COp{Kind: rapid.SampledFrom([]string{"lookup", "lookup", "watch", "set", "set", "poll", "poll", "read", "advance", "restart"}).Draw(rt, "kind"), Name: rapid.SampledFrom(c13Names).Draw(rt, "name")}
 			if o.Kind == "restart" && rapid.IntRange(0, 2).Draw(rt, "redeclare") == 0 {
 				o.Redeclare = rapid.SampledFrom([][]string{{"d1"}, {"d2"}, {"d1", "d2"}, {"d2", "u1"}, {"u2"}}).Draw(rt, "newdecl")
 			}
